@@ -473,6 +473,17 @@ class C04:
                 cfg["history"].insert(rng.randrange(len(cfg["history"]) + 1), ["sibling", {"k": weighted(rng, [(None, 2), (rng.choice([1, 5, 26]), 1)])}])
             if not any(h[0] == "cache" for h in cfg["history"]) and len(caches) < 2:
                 cfg["history"].insert(0, ["cache", {}])        # (an outer cache parks a reader of the inner one)
+        if rng.random() < 0.006:
+            # a biased shape (found by the thorough tier at index 912200): lazily drawn, memoised outcome functions (grounded feedback) sit in a
+            # cache that a sibling pipeline reads first; this pipeline rewrites the actions after the cache, and is copied (save / pickle) in between
+            n = 1 + rng.randrange(6)
+            cfg = {"src": ["linear", {"n_interactions": n, "n_actions": 2 + rng.randrange(2), "n_context_features": rng.randrange(2), "n_action_features": 0, "seed": rng.randrange(1, 9)}],
+                   "ops": [["grounded", {"n_users": 4, "n_normal": rng.randrange(0, 5), "n_words": 4, "n_good": 1 + rng.randrange(3), "seed": rng.randrange(1, 9)}],
+                           ["chunk", {"cache": True}], ["sparse", {"context": rng.random() < 0.5, "action": True}]],
+                   "sibling": {"after": 1, "take": rng.choice([None, 30])},
+                   "history": [["sibling", {"k": rng.choice([None, 1, 5])}], [rng.choice(["save", "pickle"]), {"keep": "copy"}], ["full", {}]] + gen_history(rng)[:3]}
+            if rng.random() < 0.5:
+                cfg["src"] = ["bandit", {"n_interactions": n, "n_actions": 2 + rng.randrange(2), "seed": rng.randrange(1, 9)}]
         return cfg
 
     # ------------------------------------------------------------------
